@@ -33,12 +33,17 @@ COQ_EXPLAIN = '(map explain_case)'
 SHARD = 20
 WORKERS = 8
 RULE = ('seeded outage schedules over 1-5 virtual minutes (harness/props/c09.py gen_case): Thrift and ThriftMux stacks, 1-3 '
-        'endpoints, each with 0-3 outages (unreachable at first connect; going down by connection reset / EOF / silently with a '
-        'request in flight or idle; coming back one tick before / at / after a predicted retry or at a random time), background '
-        'traffic every 16-128 ticks plus calls placed around every transition and predicted retry, resurrector initial in {1,2,5} s '
-        'and max in {4,8,60} s (initial <= max), exponent 1.2 (shipped) / 1.5 / 2, connect delays 0-3 ticks, client close at a '
-        'random time or on a retry tick in a quarter of the cases, in another ~fifth the caller of the first call that fails closes the '
-        'client the moment it wakes up (between a fault and its delivery), both same-tick timer orders; one Coq case per ResurrectorSink '
+        'endpoints, each with 0-6 outages (unreachable at first connect; going down by connection reset / EOF / silently with a '
+        'request in flight or idle; connects refused at once or timing out after 1-130 ticks; coming back one tick before / at / '
+        'after a predicted retry or at a random time), background traffic every 16-128 ticks plus calls placed around every '
+        'transition and predicted retry, replies in one or several segments, resurrector initial in {1,1.5,2,2.5,3,4,5,8} s and max '
+        'in {1,4,4.25,4.5,8,60} s (initial <= max, incl. initial == max), exponent 1.2 (shipped) / 1.5 / 2 / 1, connect delays 0-3 '
+        'ticks, pool options min 0-2 / max 1-3 / queue 0-5 in a third of the Thrift cases, clock origin 1024 s or just below 2^11, '
+        '2^12, 2^13, 2^16 s; client close at a random time or on a retry tick in a quarter of the cases, in another ~fifth the caller '
+        'of the first call that fails closes the client the moment it wakes up (between a fault and its delivery); callers that '
+        'call again at once (1-3 times) when their call fails; an endpoint leaving the server set (often while down) and joining '
+        'again, an endpoint joining later; same-tick ops in random order; down/up/close ops run as clock timers before (fifo) or '
+        'after (lifo) the retry wake-up due in the same instant; both same-tick timer orders; one Coq case per ResurrectorSink '
         'instance; non-trivial = some instance went down; distinct by canonical JSON of (case, observation)')
 TRUSTED = ['simulation world harness/vworld.py (virtual clock, fake gsocket), scripted peers harness/peers.py',
            'outage endpoints and interface tracing proxies in harness/c09_world.py (factory/sink/AsyncResult proxies between the '
@@ -93,7 +98,8 @@ def setup():
 # ---------------------------------------------------------------------------------------------
 # generator
 # ---------------------------------------------------------------------------------------------
-RS_COMBOS = [(1, 4), (1, 8), (1, 60), (2, 4), (2, 8), (2, 60), (5, 8), (5, 60), (2, 4), (2, 8), (5, 8)]
+RS_COMBOS = [(1, 4), (1, 8), (1, 60), (2, 4), (2, 8), (2, 60), (5, 8), (5, 60), (2, 4), (2, 8), (5, 8),
+             (4, 4), (8, 8), (1, 1), (1.5, 4.5), (2.5, 8), (3, 60), (2, 4.25)]     # incl. initial == max, non-integers
 
 
 def waits(initial, mx, exponent, n=40):
@@ -111,12 +117,17 @@ def gen_case(r, idx=0, stack=None):
   stack = stack or r.choice(['thrift', 'mux'])
   n_ep = r.choice([1, 1, 1, 2, 2, 3])
   initial, mx = r.choice(RS_COMBOS)
-  exponent = r.choice([1.2, 1.2, 1.2, 1.2, 1.2, 1.2, 1.5, 2])
+  exponent = r.choice([1.2, 1.2, 1.2, 1.2, 1.2, 1.2, 1.5, 2, 2, 1])
   minutes = r.choice([1, 1, 2, 3, 5])
   horizon = 64 * 60 * minutes
   cfg = {'stack': stack, 'tie': r.choice(['fifo', 'lifo']), 'timeout': r.choice([32, 64, 128]), 'seed': r.randrange(1 << 30),
          'resolution': r.choice([1, 1, 4]), 'resurrector': {'initial': initial, 'max': mx, 'exponent': exponent},
          'endpoints': [], 'horizon': horizon}
+  if r.random() < 0.3:
+    # start times just below a power of two: the clock's rounding (ulp) changes during the run
+    cfg['t0'] = float(r.choice([2040, 4090, 8185, 65530]))
+  if stack == 'thrift' and r.random() < 0.35:
+    cfg['pool'] = {'min': r.choice([0, 1, 1, 2]), 'max': r.choice([1, 2, 3, 2 ** 31 - 1]), 'maxq': r.choice([0, 1, 5, 2 ** 31 - 1])}
   ws = waits(initial, mx, exponent)
   period = r.choice([16, 32, 64, 128])
   period = max(period, horizon // 110)
@@ -125,17 +136,24 @@ def gen_case(r, idx=0, stack=None):
   slow_success = [] # ticks at which a retry's Open is predicted to be in progress (connect delay)
   for k in range(n_ep):
     ep = {'port': 9001 + k, 'init': 'up', 'reply_delay': r.choice([0, 0, 0, 1, 3]), 'connect_delay': r.choice([0, 0, 0, 0, 1, 3])}
+    if stack == 'thrift' and r.random() < 0.2:
+      ep['chunks'] = [r.choice([1, 2, 3, 4, 7]) for _ in range(r.choice([1, 3, 8]))]     # replies arrive in several segments
     t = 0
-    n_out = r.choice([0, 1, 1, 2, 3]) if n_ep > 1 else r.choice([1, 1, 2, 3])
+    n_out = r.choice([0, 1, 1, 2, 3]) if n_ep > 1 else r.choice([1, 1, 2, 3, 6])
     for j in range(n_out):
+      hole = r.choice([1, 8, 40, 130]) if r.random() < 0.25 else 0     # connects time out instead of being refused
       if j == 0 and r.random() < 0.3:
         ep['init'] = 'down'
+        if hole:
+          ep['init_hole'] = hole
         start = 0
       else:
         start = t + r.choice([20, 100, 300, 1000, r.randrange(20, max(21, horizon // 2))])
         if start >= horizon - 64:
           break
         ops.append({'at': start, 'op': 'down', 'port': ep['port'], 'mode': r.choice(['reset', 'reset', 'close', 'silent'])})
+        if hole:
+          ops[-1]['hole'] = hole
       hot.append(start)
       # the client notices at about `start` (mux) or at its next call (thrift); predicted retries from there
       disc = start if stack == 'mux' or start == 0 else start + r.randrange(0, period + 1)
@@ -144,6 +162,7 @@ def gen_case(r, idx=0, stack=None):
       for w in ws[:kfail + 1]:
         acc += w * 64
         hot.append(int(acc))
+        acc += hole
       y = r.random()
       if y < 0.6:
         up = int(acc) + r.choice([-1, 0, 1, 1, 2])
@@ -161,6 +180,7 @@ def gen_case(r, idx=0, stack=None):
           a += w * 64
           if a >= up:
             break
+          a += hole
         hot.append(int(a))
         if ep['connect_delay']:
           slow_success.append(int(a) + 1)
@@ -201,7 +221,34 @@ def gen_case(r, idx=0, stack=None):
     for e in ops:
       if e['op'] == 'call' and e['at'] >= t_from:
         e['close_on_error'] = True
-  ops.sort(key=lambda e: (e['at'], {'down': 0, 'up': 1, 'call': 2, 'close': 3}[e['op']]))
+  if r.random() < 0.25:
+    # callers that call again at once when their call fails (up to 3 times in a row), from inside the wake-up of the failure
+    for e in ops:
+      if e['op'] == 'call' and r.random() < 0.3:
+        e['redispatch'] = r.choice([1, 1, 2, 3])
+  if r.random() < 0.2:
+    # server-set changes: an endpoint leaves (often while it is down) and may join again later (same endpoint, new sink);
+    # an endpoint that is not a member at first joins later
+    ep = r.choice(cfg['endpoints'])
+    if n_ep > 1 and r.random() < 0.3:
+      ep['member'] = False
+      ops.append({'at': r.randrange(8, horizon), 'op': 'join', 'port': ep['port']})
+    else:
+      at = (r.choice(hot) + r.choice([-1, 0, 1, 5, 70])) if hot and r.random() < 0.7 else r.randrange(8, horizon)
+      at = max(8, min(at, horizon - 2))
+      ops.append({'at': at, 'op': 'leave', 'port': ep['port']})
+      if r.random() < 0.7:
+        ops.append({'at': min(horizon - 1, at + r.choice([0, 1, 30, 300, 2000])), 'op': 'join', 'port': ep['port']})
+  for e in ops:
+    if e['op'] in ('down', 'up', 'close') and r.random() < 0.3:
+      # run as a timer of the virtual clock: before (tie fifo) / after (lifo) the client's own timers of that instant
+      e['timer'] = True
+  # same-tick ops in a random order (but an endpoint's down before its up, a join after its leave)
+  for e in ops:
+    e['_k'] = r.random()
+  ops.sort(key=lambda e: (e['at'], {'down': 0, 'leave': 0, 'up': 1, 'join': 1}.get(e['op'], e['_k'])))
+  for e in ops:
+    del e['_k']
   cl = [e['at'] for e in ops if e['op'] == 'close']
   if cl:
     # a handful of calls after the close are enough
@@ -283,6 +330,39 @@ def run_impl(case):
 # ---------------------------------------------------------------------------------------------
 # monitor: the property statement on the implementation's behaviour
 # ---------------------------------------------------------------------------------------------
+def _connect_of_open(log, oi, port, t):
+  """The connect made on behalf of the Open logged at position oi (time t): (position at which its outcome is known,
+  outcome) or None.  A connect that is refused or succeeds is logged at once; one that times out ('connect-begin') is
+  logged by the fake network when it ends, carrying the time at which it began."""
+  for j in range(oi + 1, len(log)):
+    f = log[j]
+    if f[0] == t and f[3:4] == [port]:
+      if f[2] == 'connect':
+        return j, f[4] == 'True'
+      if f[2] == 'connect-begin':
+        for k in range(j + 1, len(log)):
+          g = log[k]
+          if g[2] == 'connect' and g[3] == port and g[0] == t:
+            return k, g[4] == 'True'
+        return j, False          # still waiting for the connect to time out at the end of the run: an attempt all the same
+    if f[2] in ('u-open', 'rs-close', 'client-close', 'horizon') and f[0] > t:
+      # (nothing of this Open can start later than the instant it was called in)
+      return None
+  return None
+
+
+def _odur(cfg, ops, port):
+  """ticks an Open of this endpoint's sink may take: the connect delay, or the time a blackholed connect takes to time out"""
+  d = 0
+  for ep in cfg['endpoints']:
+    if ep['port'] == port:
+      d = max(ep.get('connect_delay', 0), ep.get('init_hole', 0))
+  for e in ops:
+    if e.get('op') == 'down' and e.get('port') == port:
+      d = max(d, e.get('hole', 0))
+  return d
+
+
 class _Inst(object):
   def __init__(self, iid, port, idx, t):
     self.iid, self.port, self.new_idx, self.new_t = iid, port, idx, t
@@ -301,15 +381,20 @@ class _Inst(object):
   def stale(self, sid, idx):
     """The sink had already been closed (dropped) by the instance at log position idx: whatever a transport of it still
     does (e.g. the serial transport's re-open after a request in flight timed out) is not the endpoint's current connection."""
-    return sid in self.sid_closed and self.sid_closed[sid] < idx
+    return sid == -1 or (sid in self.sid_closed and self.sid_closed[sid] < idx)
 
 
-def _timeline(obs):
+def _timeline(obs, stack='mux'):
   """Per resurrector instance: its connect attempts, connections and their ends, from the ordered log."""
   log = obs['log']
   insts, by_port = {}, {}
   client_close = None
   get_ok = {}
+  slow_reopen = {}
+  reopens = set()
+  begins = {}
+  begin_sid = {}
+  begin_of = {}      # position of a late-logged (timed out) connect -> position at which that attempt began
   for idx, e in enumerate(log):
     if e[2] == 'u-open-get' and e[5] == 'ok':
       get_ok[(e[3], e[4])] = idx
@@ -333,27 +418,44 @@ def _timeline(obs):
     elif k == 'u-open':
       it = insts.get(e[3])
       if it is not None:
-        # the connect made on behalf of this Open: the first one on the port in the same instant
-        for j in range(idx + 1, len(log)):
-          f = log[j]
-          if f[0] != t:
-            break
-          if f[2] == 'connect' and f[3] == it.port:
-            it.opens.append((j, t, f[4] == 'True', e[4], get_ok.get((e[3], e[4]))))
-            it.open_at.append((j, idx))
-            break
+        c = _connect_of_open(log, idx, it.port, t)
+        if c is not None:
+          it.opens.append((c[0], t, c[1], e[4], get_ok.get((e[3], e[4]))))
+          it.open_at.append((c[0], idx))
+    elif k == 'connect-begin':
+      begins.setdefault((e[3], t), []).append(idx)
+      jt0 = by_port.get(e[3])
+      begin_sid[idx] = (jt0, jt0.cur_sid) if jt0 is not None else None
+      prev = log[idx - 1] if idx else None
+      if prev is not None and prev[2] == 'close' and prev[3] == e[3] and prev[0] == t:
+        slow_reopen[(e[3], t)] = prev[4] if prev[4] is not None else -1
     elif k in ('connect', 'established', 'close', 'peer-reset', 'peer-close', 'peer-silent'):
       it = by_port.get(e[3])
       if it is None:
         continue
       if k == 'connect':
         sid = it.cur_sid
+        if begins.get((e[3], t)):
+          begin_of[idx] = begins[(e[3], t)].pop(0)
+          if begin_sid.get(begin_of[idx]):
+            it, sid = begin_sid[begin_of[idx]]      # the sink that was current when the attempt began
         prev = log[idx - 1] if idx else None
-        if prev is not None and prev[2] == 'close' and prev[3] == e[3] and prev[4] is not None and prev[0] == t:
+        pc = None
+        if prev is not None and prev[2] == 'close' and prev[3] == e[3] and prev[0] == t:
+          pc = prev[4] if prev[4] is not None else -1
+        elif (e[3], t) in slow_reopen:
+          pc = slow_reopen[(e[3], t)]
+        if pc == -1:
+          # re-opened by a transport whose socket had never been connected (its own Open had failed, which was reported
+          # then): not a sign of anything new about the endpoint's current connection
+          reopens.add(idx)
+          sid = -1
+        elif pc is not None:
           # a transport re-opening its own socket (serial transport after a timeout): belongs to that connection's sink
+          reopens.add(idx)
           for jt in insts.values():
-            if jt.port == e[3] and prev[4] in jt.conn_sid:
-              it, sid = jt, jt.conn_sid[prev[4]]
+            if jt.port == e[3] and pc in jt.conn_sid:
+              it, sid = jt, jt.conn_sid[pc]
         it.connects.append((idx, t, e[4] == 'True', sid))
       elif k == 'established':
         it.estab[e[4]] = idx
@@ -369,7 +471,13 @@ def _timeline(obs):
         for jt in insts.values():
           if jt.port == e[3] and e[4] in jt.estab and e[4] not in jt.killed:
             jt.killed[e[4]] = idx
+  # connects that were still waiting to time out when the run (or their greenlet) ended
+  unfinished = [(b, port) for ((port, _t), bs) in begins.items() for b in bs]
   for it in insts.values():
+    it.reopens = reopens
+    it.begin_of = begin_of
+    it.unfinished = unfinished
+    it.stack = stack
     _episodes(it, log)
   return insts, client_close
 
@@ -387,20 +495,39 @@ def _episodes(it, log):
     if cid in it.killed and it.killed[cid] < i and not it.stale(sid, i):
       t = log[i][0]
       end_i = i
-      while end_i + 1 < len(log) and log[end_i + 1][0] == t:
+      while end_i + 1 < len(log) and log[end_i + 1][0] == t and (end_i + 1) not in it.begin_of:
+        # (an entry of a connect that timed out is appended when it ends but stamped with its start: it is not part of this instant)
         end_i += 1
       # ... and by the end of that instant holds no other connection for this sink (dropping one pooled connection
       # after use while another one stays is ordinary pool shrinking, whatever the peer did to it unnoticed)
       held = [c for c, j in it.estab.items() if j <= end_i and it.conn_sid.get(c) == sid and not (c in it.closed and it.closed[c] <= end_i)]
       # ... unless a caller was handed a connection error right then (the request that was using the connection)
       told = False
+      benign = False       # dropped right after the request using it got its reply (a pool that keeps no idle connection)
+      first = True
       for e in log[i + 1:end_i + 1]:
-        if e[2] in ('close', 'connect'):
+        if e[2] in ('send', 'peer-tx'):
+          continue
+        if e[2] != 'call-done':      # the completions the close was part of come right behind it
           break
-        if e[2] == 'call-done':
-          told = e[4] not in ('value', 'TimeoutError', 'FailedFastError')
-          break
-      if (not held or told) and not any(j > i and tt == t and ok and sd == sid for (j, tt, ok, sd) in it.connects):
+        # (errors that say nothing about the connection: refusals of the pool / of a transport that is busy)
+        if e[4] not in ('value', 'TimeoutError', 'FailedFastError', 'ChannelConcurrencyError', 'MaxWaitersError', 'ServiceClosedError'):
+          told = True
+        if first:
+          benign = e[4] == 'value'
+          first = False
+      # (a connection that is still being set up - connect begun, not yet refused / timed out / established - counts as held)
+      begun = [b for (k, b) in it.begin_of.items() if b <= end_i < k and log[k][3] == it.port] + \
+              [b for (b, port) in it.unfinished if b <= end_i and port == it.port]
+      n_ok = sum(1 for (j, _t, ok, sd) in it.connects if j <= end_i and ok and sd == sid)
+      n_est = sum(1 for c, j in it.estab.items() if j <= end_i and it.conn_sid.get(c) == sid)
+      if begun or n_ok > n_est:
+        held = held or ['pending']
+      # ThriftMux: the transport's receive loop notices a dead connection by itself; Thrift (pool of serial transports):
+      # an idle connection that is dropped tells nothing (pool shrinking, min 0, Open-then-release) - the client notices
+      # only through a request that fails on it (told) or a re-open that fails (a failed connect, above)
+      noticed = told or (it.stack == 'mux' and not held and not benign)
+      if noticed and not any(j > i and tt == t and ok and sd == sid for (j, tt, ok, sd) in it.connects):
         ev.append((i, 'F', t))
   for (i, t, ok, sid, gi) in it.opens:
     if sid >= 2:
@@ -411,13 +538,21 @@ def _episodes(it, log):
   ev.sort(key=lambda x: (x[0], 0 if x[1][0] == 'R' else 1))
   cur = None
   for (i, what, t) in ev:
+    # when the attempt was over: a connect that timed out is logged when it ends (stamped with its start), the next
+    # entry carries that time
+    end = log[i + 1][0] if (i in it.begin_of and i + 1 < len(log)) else t
     if cur is None:
       if what == 'F':
-        cur = {'start_idx': i, 'marks': [t], 'end_idx': None}
+        cur = {'start_idx': i, 'marks': [t], 'ends': [max(end, t)], 'end_idx': None, 'known_at': max(end, t)}
         it.episodes.append(cur)
     else:
+      if what == 'F' and len(cur['marks']) == 1:
+        # further signs of the same failure before the first retry (e.g. the serial transport's own re-open after a
+        # timeout failing a little later): the outage is known to the client by one of them
+        cur.setdefault('start_ends', [cur['ends'][0]]).append(max(end, t))
       if what[0] == 'R':
         cur['marks'].append(t)
+        cur['ends'].append(max(end, t))
         if what == 'R+':
           cur['end_idx'] = i
           cur = None
@@ -448,13 +583,19 @@ def _healthy(it, idx):
   return bool(lv) and not any(c in it.killed and it.killed[c] < idx for c in lv)
 
 
+def _maybe_noticed(it, idx):
+  ends = [ep['end_idx'] for ep in it.episodes if ep['end_idx'] is not None and ep['end_idx'] < idx]
+  since = max(ends) if ends else -1
+  return any(c in it.killed and it.killed[c] < ci and since < ci < idx for c, ci in it.closed.items())
+
+
 def monitor(case, obs):
   v = []
   cfg = case['config']
   rs = cfg['resurrector']
   w0, wmax, expo = float(rs['initial']), float(rs['max']), rs.get('exponent', 1.2)
   log = obs['log']
-  insts, client_close = _timeline(obs)
+  insts, client_close = _timeline(obs, cfg['stack'])
   end_idx = len(log)
   end_t = obs['now']
   cc_t = log[client_close][0] if client_close is not None else None
@@ -469,6 +610,12 @@ def monitor(case, obs):
       done_idx.setdefault(e[3], idx)
     elif e[2] == 'rs-req':
       route.setdefault(e[4], []).append((idx, e[3]))
+
+  leaves = [(idx, e[3]) for idx, e in enumerate(log) if e[2] == 'ss-leave']
+
+  def member(it, idx):
+    """the instance's endpoint has not left the server set (its sink may be closed only later, when its last request is done)"""
+    return not any(it.new_idx < li < idx and p == it.port for (li, p) in leaves)
 
   def alive(it, idx):
     return it.new_idx < idx and (it.close_idx is None or it.close_idx > idx) and (client_close is None or client_close > idx)
@@ -489,6 +636,15 @@ def monitor(case, obs):
         continue
       didx = done_idx.get(cid, end_idx)
       ep = _in_episode(it, ridx)
+      if ep is not None and not (log[ridx][0] > ep['known_at'] or any(
+          e[2] == 'rs-fault' and e[3] == it.iid for e in log[ep['start_idx']:ridx])):
+        # routed in the very instant in which the failure became detectable and before the fault notification (it
+        # travels transport -> pool -> resurrector in greenlets of its own) has reached the endpoint's sink: nothing is
+        # 'down' yet for the client; whatever the call gets, it gets at once.  From the next tick on, or as soon as the
+        # sink has been notified, the rule applies.
+        ep = None
+        if kind == 'FailedFastError':
+          continue
       if ep is not None:
         # (1) fail fast while the connection is down
         if kind != 'FailedFastError':
@@ -498,6 +654,10 @@ def monitor(case, obs):
                         done[0]['at'] if done else 'no completion')))
         elif cid in served:
           pass      # reported above
+      elif kind == 'FailedFastError' and _maybe_noticed(it, ridx):
+        # a connection the peer had killed was dropped by the client since the last successful (re)connect, by a path the
+        # rules above do not count as noticing it for sure (e.g. the request using it had already timed out): no verdict
+        pass
       elif kind == 'FailedFastError':
         # (3) used again once reachable: no fail-fast from an endpoint the client is connected to ...
         v.append(('fail-fast-while-connected', 'call %s failed fast at tick %s on endpoint %d although no connection failure has been seen '
@@ -506,19 +666,21 @@ def monitor(case, obs):
       if kind == 'FailedFastError':
         # ... nor beside one (the balancer un-penalises a member whose sink reports Open again)
         for jt in insts.values():
-          if jt is not it and alive(jt, ridx) and _healthy(jt, ridx) and _settled(log, jt, ridx):
+          if jt is not it and alive(jt, ridx) and member(jt, ridx) and _healthy(jt, ridx) and _settled(log, jt, ridx):
             v.append(('fail-fast-while-an-endpoint-is-usable', 'call %s failed fast at tick %s on endpoint %d although endpoint %d had '
                       'been (re)connected and was usable' % (cid, c['issued'], it.port, jt.port)))
             break
       # served again: a call routed to a healthy instance whose endpoint stays up gets its reply from that endpoint
       if _healthy(it, ridx) and not _disturbed(log, it.port, ridx, didx) and done and (client_close is None or client_close > didx):
-        if kind != 'value' or it.port not in served.get(cid, []):
+        refused = kind in ('MaxWaitersError', 'ServiceClosedError') and 'pool' in cfg      # a bounded pool may refuse
+        if not refused and (kind != 'value' or it.port not in served.get(cid, [])):
           v.append(('healthy-endpoint-not-served', 'call %s routed at tick %s to endpoint %d (connected, reachable) ended as %s, served by %s' % (
               cid, log[ridx][0], it.port, kind, served.get(cid))))
 
   # (2) retry spacing and (3) liveness of the retry loop, per instance and outage
   tick = 1.0
   delays = dict((ep['port'], ep.get('connect_delay', 0)) for ep in cfg['endpoints'])
+  holes = dict((ep['port'], _odur(cfg, case['ops'], ep['port'])) for ep in cfg['endpoints'])
   for it in insts.values():
     odur = delays.get(it.port, 0)     # a gap between attempts = the sleep + the time the failed attempt took
     ep_end = it.close_idx if it.close_idx is not None else end_idx
@@ -529,40 +691,52 @@ def monitor(case, obs):
       if ep['start_idx'] >= ep_end:
         continue
       marks = [m for m in ep['marks'] if m <= end_time]
-      gaps = [marks[k + 1] - marks[k] for k in range(len(marks) - 1)]
+      ends = list(ep['ends'][:len(marks)])
+      if len(marks) > 1 and ep.get('start_ends'):
+        # the first delay is counted from the sign of failure that fits the initial interval best
+        ends[0] = min(ep['start_ends'], key=lambda x: abs(marks[1] - x - w0 * 64))
+      # the delays: from the end of one attempt (or the start of the outage) to the start of the next
+      gaps = [marks[k + 1] - ends[k] for k in range(len(marks) - 1)]
       for k, g in enumerate(gaps):
         gs = g / 64.0
         if gs > wmax + (tick + odur) / 64.0:
-          v.append(('retry-gap-above-max', 'endpoint %d: %.4f s between reconnection attempts at ticks %s and %s exceeds max %.1f s' % (
+          v.append(('retry-gap-above-max', 'endpoint %d: %.4f s between the end of the reconnection attempt at tick %s and the next one at tick %s exceeds max %.1f s' % (
               it.port, gs, marks[k], marks[k + 1], wmax)))
         if gs < w0 - tick / 64.0:
           v.append(('retry-faster-than-initial', 'endpoint %d: only %.4f s between ticks %s and %s (initial interval %.1f s)' % (
-              it.port, gs, marks[k], marks[k + 1], w0)))
+              it.port, gs, ends[k], marks[k + 1], w0)))
         if k > 0:
           if g < gaps[k - 1] - tick - odur:
             v.append(('retry-gap-shrinks', 'endpoint %d: successive retry delays %.4f s then %.4f s (attempts at %s)' % (
                 it.port, gaps[k - 1] / 64.0, gs, marks[max(0, k - 1):k + 2])))
-          elif w0 > 1 and expo > 1 and g < gaps[k - 1] + tick and gs < wmax - tick / 64.0:
+          elif w0 > 1 and expo > 1 and g < gaps[k - 1] + tick - odur and gs < wmax - tick / 64.0 and w0 < wmax:
             v.append(('retry-gap-not-growing', 'endpoint %d: successive retry delays %.4f s then %.4f s below max %.1f s (attempts at %s)' % (
                 it.port, gaps[k - 1] / 64.0, gs, wmax, marks[max(0, k - 1):k + 2])))
       # liveness: after the start of the outage and after every failed attempt the next attempt comes within max
       still_down = ep['end_idx'] is None or ep['end_idx'] >= ep_end
-      if still_down and marks and end_time > marks[-1] + wmax * 64 + tick + odur:
+      if still_down and marks and end_time > marks[-1] + wmax * 64 + tick + holes.get(it.port, 0):
         v.append(('no-retry-within-max', 'endpoint %d: down since tick %s, last reconnection attempt at tick %s, none until tick %s '
                   '(max interval %.1f s = %d ticks, client not closed)' % (it.port, marks[0], marks[-1], end_time, wmax, wmax * 64)))
 
   # (4) nothing after close
+  all_reopens = set()
+  for it in insts.values():
+    all_reopens |= it.reopens
+
+  began = {}
+  for it in insts.values():
+    began = it.begin_of
+
   def reopen(idx):
-    """the serial transport re-opening its own socket: 'close <conn>' immediately followed by 'connect'"""
-    p = log[idx - 1]
-    return p[2] == 'close' and p[3] == log[idx][3] and p[4] is not None and p[0] == log[idx][0]
+    """the serial transport re-opening its own socket: 'close <conn>' immediately followed by the connect"""
+    return idx in all_reopens
   if client_close is not None:
     cur = {}
     for idx in range(end_idx):
       e = log[idx]
       if e[2] == 'rs-new':
         cur[e[4]] = insts.get(e[3])
-      if idx > client_close and e[2] == 'connect':
+      if e[2] == 'connect' and began.get(idx, idx) > client_close:
         it = cur.get(e[3])
         if reopen(idx):
           sig = 'connect-after-close/serial-transport-reopen'
@@ -587,7 +761,7 @@ def monitor(case, obs):
       newer = any(jt.port == it.port and jt.new_idx > it.close_idx for jt in insts.values())
       if not newer:
         for (i, t, _o, _s) in it.connects:
-          if i > it.close_idx and (client_close is None or i < client_close):
+          if began.get(i, i) > it.close_idx and (client_close is None or i < client_close):
             v.append(('connect-after-close/serial-transport-reopen' if reopen(i) else 'connect-after-close',
                       'endpoint %d: its sink was closed at tick %s, connect attempt at tick %s' % (it.port, log[it.close_idx][0], t)))
   for cr in obs['crashes']:
@@ -696,13 +870,8 @@ def instance_steps(case, obs):
         sid = s.get('sid')
       if sid is not None and sid in I['open_idx']:
         oi, ot = I['open_idx'][sid]
-        started = None
-        for e in log[oi:]:
-          if e[0] != ot:
-            break
-          if e[2] == 'connect' and e[3] == port:
-            started = (e[4] == 'True')
-            break
+        c = _connect_of_open(log, oi, port, ot)
+        started = None if c is None else c[1]
         if s['l'] == 'LOpen':
           s['conn'] = started
         elif not started:
@@ -761,7 +930,9 @@ def to_coq(case, obs):
   terms = []
   for iid in sorted(insts):
     I = insts[iid]
-    odur = by_port[I['port']].get('connect_delay', 0) * TICK_UNITS
+    odur = _odur(cfg, case['ops'], I['port']) * TICK_UNITS
+    if odur:
+      odur += 1 << 17      # the end of a timed-out connect is a rounded sum on the double clock (ulp <= 2^-36 s below 2^17 s)
     terms.append('{| c_one := %s; c_w0 := %s; c_wmax := %s; c_odur := %s; c_t0 := %s; c_tab := %s; c_steps := %s |}' % (
         C.zlit(W.UNIT), C.zlit(W.units(rs['initial'])), C.zlit(W.units(rs['max'])), C.zlit(odur), C.zlit(I['t0']), tab,
         C.lst([_step_term(s) for s in I['steps']])))
@@ -835,5 +1006,29 @@ def stats(cases, obs):
           down, pc, closed = False, 'none', True
         elif l == 'LTick':
           hit('LTick/' + ('sleeping' if pc == 'sleep' else 'opening' if pc == 'open' else 'no-greenlet'))
-  return {'resurrector_instances': n_inst, 'model_branches': br, 'call_outcomes': kinds, 'greenlet_crash_types': crashes,
+  feats = {}
+
+  def feat(k, on=True):
+    if on:
+      feats[k] = feats.get(k, 0) + 1
+  for c in cases:
+    if not isinstance(c, dict) or 'config' not in c:
+      continue
+    cfg, ops = c['config'], c['ops']
+    rs = cfg['resurrector']
+    feat('blackholed-connects', any(e.get('hole') for e in ops) or any(ep.get('init_hole') for ep in cfg['endpoints']))
+    feat('caller-closes-on-error', any(e.get('close_on_error') for e in ops))
+    feat('caller-redispatches-on-error', any(e.get('redispatch') for e in ops))
+    feat('leave/join', any(e['op'] in ('leave', 'join') for e in ops))
+    feat('ops-as-clock-timers', any(e.get('timer') for e in ops))
+    feat('pool-options', 'pool' in cfg)
+    feat('pool-min-0', cfg.get('pool', {}).get('min') == 0)
+    feat('clock-origin-near-power-of-two', 't0' in cfg)
+    feat('initial==max', rs['initial'] == rs['max'])
+    feat('exponent-1', rs.get('exponent') == 1)
+    feat('non-integer-intervals', rs['initial'] != int(rs['initial']) or rs['max'] != int(rs['max']))
+    feat('chunked-replies', any(ep.get('chunks') for ep in cfg['endpoints']))
+    feat('>=4-outages-of-one-endpoint', any(sum(1 for e in ops if e['op'] == 'down' and e['port'] == ep['port']) >= 4 for ep in cfg['endpoints']))
+    feat('timed-client-close', any(e['op'] == 'close' for e in ops))
+  return {'resurrector_instances': n_inst, 'model_branches': br, 'generator_features(cases)': feats, 'call_outcomes': kinds, 'greenlet_crash_types': crashes,
           'branches_never_reachable': ['LOpen/existing-sink (excluded by wf_trace)', 'LFault/while-down (proved dead: down_no_fault)']}
